@@ -207,18 +207,18 @@ Definition adv_src_model : adv_src := {|
       ("TotalDebitEntryDollarAmountInFile", "totalDebitAmount");
       ("TotalCreditEntryDollarAmountInFile", "totalCreditAmount") ];
   as_create_sums :=
-    [ ("fileEntryAddendaCount", "EntryAddendaCount"); ("totalRecordsInFile", "2+EntryAddendaCount");
+    [ ("fileEntryAddendaCount", "EntryAddendaCount"); ("totalRecordsInFile", "2 + EntryAddendaCount");
       ("fileEntryHashSum", "EntryHash"); ("totalDebitAmount", "TotalDebitEntryDollarAmount");
       ("totalCreditAmount", "TotalCreditEntryDollarAmount") ];
   as_create_guard := [ "len(f.IATBatches) > 0"; "batch.GetHeader().StandardEntryClassCode != ADV" ];
   as_from_json_adv :=
-    [ "advControl := advFileControl{ADVControl: NewADVFileControl()}"; "decode(&advControl)";
+    [ "advControl := advFileControl{ ADVControl: NewADVFileControl(), }"; "decode(&advControl)";
       "out.ADVControl = advControl.ADVControl"; "out.ADVControl.BatchCount = len(out.Batches)" ];
   as_set_adv_type := [ "if e.Addenda99 == nil"; "e.Category = CategoryForward" ];
   as_is_adv := [ "f.Batches[i].GetHeader().StandardEntryClassCode == ADV" ];
   as_adv_loop_call := [ "batch.ADVEntries = withoutNil(batch.ADVEntries)"; "range batch.ADVEntries: setADVEntryRecordType(e)"; "batch.build()" ];
   as_unmarshal :=
-    [ "if f.validateOpts == nil { opts, err := readValidateOpts(p); f.SetValidation(opts) }";
+    [ "if f.validateOpts == nil { opts, err := readValidateOpts(p) if err != nil { return err } f.SetValidation(opts) }";
       "file, err := FileFromJSONWith(p, f.validateOpts)"; "if err != nil { return err }"; "if file != nil { *f = *file }" ]
 |}.
 
